@@ -43,6 +43,29 @@ Definition scanned (p : cpc) (i : N) : bool :=
 Definition in_upd (p : cpc) : bool :=
   match p with UpdDist0 | UpdLoadGen _ | UpdDist1 _ _ | UpdCopy _ _ | UpdValidate _ _ => true | _ => false end.
 
+(* pcs of add / remove: the calls that can be abandoned *)
+Definition fusable (p : cpc) : bool :=
+  match p with
+  | AddLoadIgen _ | AddScan _ _ _ | AddFinal _ _ | IncLoad (KAdd _ _) | IncCas _ (KAdd _ _) | AddDist0 _ _
+  | AddLoadGen _ _ | AddCasGen _ _ _ | AddDist1 _ _ | AddWrite _ _ | AddIncGen _ _ | AddIncChange _ _
+  | AddDist1b _ | AddRetCell _ | RemLoadGen _ | RemDist2 _ _ | RemCasCell _ _
+  | IncLoad (KRem _ _) | IncCas _ (KRem _ _) | RemCasGen _ _ | RemIncChange => true
+  | _ => false
+  end.
+Definition next_rec (p : list cop) : Prop := exists r, p = CRec true :: r.
+(* recover pcs whose predicate flag (where the pc carries it) is true *)
+Definition rec_true (p : cpc) : bool :=
+  match p with
+  | RecDist2 b | RecLoadCell _ _ b | RecPDist0 _ _ _ b | RecLoadGen _ _ b | RecPDist1 _ _ _ b | RecRead _ _ _ b
+  | RecValidate _ _ _ _ b | RecCasCell _ _ _ b | RecSDist0 _ _ _ b | RecCasGen _ _ _ b
+  | IncLoad (KRec _ _ b) | IncCas _ (KRec _ _ b) => b
+  | RecEnd _ | RecIncChange _ _ => true
+  | _ => false
+  end.
+(* a thread whose current owner id is alive *)
+Definition L0P (l : clst) : Prop :=
+  crash_ok_prog (prog l) = true /\ dirty l = false /\ (fuse l <> None -> fusable (pc l) = true /\ next_rec (prog l)).
+
 Definition Stale (g : cgst) (i gn : N) : Prop :=
   odd gn = true /\ gn <= gens g i /\ (settled g i = true -> gn < gens g i).
 Definition Uns (g : cgst) (o n : N) : Prop := cells g n = o /\ settled g n = false.
@@ -71,7 +94,7 @@ Definition PcInv (g : cgst) (o : N) (l : clst) : Prop :=
   end.
 
 Record LInv (g : cgst) (t : nat) (l : clst) : Prop := {
-  L0 : fuse l = None /\ forallb crash_free_op (prog l) = true;
+  L0 : L0P l;
   L1 : rchange l <= change g /\ ustart l <= clock g;
   L2 : forall i, rgen l i <= gens g i;
   L3 : forall i gm, In (i, gm) (pend l) -> i < cap g /\ gm <= gens g i;
@@ -87,6 +110,34 @@ Record LInv (g : cgst) (t : nat) (l : clst) : Prop := {
   L11 : in_upd (pc l) = false -> ulast l = false -> forall i, uprev l i = rgen l i
 }.
 
+(* the owner died inside a call (dirty): until its recover (predicate true) has completed nothing
+   is known about the state of the slots it owns, except that nobody else touches their cells *)
+Definition PcInvD (g : cgst) (o : N) (l : clst) : Prop :=
+  match pc l with
+  | RecLoadCell n _ _ => n < cap g
+  | RecPDist0 n o' _ _ => n < cap g /\ (o' = o -> cells g n = o)
+  | RecLoadGen n _ _ | RecPDist1 n _ _ _ | RecRead n _ _ _ | RecValidate n _ _ _ _ => n < cap g /\ cells g n = o
+  | RecCasCell n v _ _ => n < cap g /\ cells g n = o /\ (gens g n = v \/ (odd v = true /\ gens g n = v + 1))
+  | RecSDist0 n v _ _ | RecCasGen n v _ _ => n < cap g /\ Stale g n v
+  | _ => True
+  end.
+
+Record LDirty (g : cgst) (t : nat) (l : clst) : Prop := {
+  D0 : crash_ok_prog (prog l) = true /\ dirty l = true /\ fuse l = None /\
+       ((pc l = Idle /\ next_rec (prog l)) \/ rec_true (pc l) = true);
+  D1 : rchange l <= change g /\ ustart l <= clock g;
+  D2 : forall i, rgen l i <= gens g i;
+  D3 : forall i gm, In (i, gm) (pend l) -> i < cap g /\ gm <= gens g i;
+  D6 : forall n e, cells g n = owner_of t e -> e <= epoch l;
+  D7 : PcInvD g (me t l) l;
+  D8 : forall i, odd (rgen l i) = true -> In (rgen l i, rdata l i) (published g i);
+  D9 : forall i gm c e, In (i, gm, c, e) (oplog g) -> c <= rchange l -> gm <= rgen l i;
+  D10 : forall i gm c e, In (i, gm, c, e) (oplog g) -> e < ustart l -> c <= rchange l;
+  D11 : ulast l = false -> forall i, uprev l i = rgen l i
+}.
+
+Definition LInvC (g : cgst) (t : nat) (l : clst) : Prop := LInv g t l \/ LDirty g t l.
+
 Record GInv (g : cgst) : Prop := {
   GA : forall i a b, In (a, b) (published g i) -> odd a = true /\ a <= gens g i;
   GB : forall i, odd (gens g i) = true -> In (gens g i, datas g i) (published g i);
@@ -95,7 +146,7 @@ Record GInv (g : cgst) : Prop := {
   GE : forall i, settled g i = true -> cells g i <> EMPTY
 }.
 
-Definition Inv (c : cfg cgst clst) : Prop := GInv (fst c) /\ forall t, LInv (fst c) t (snd c t).
+Definition Inv (c : cfg cgst clst) : Prop := GInv (fst c) /\ forall t, LInvC (fst c) t (snd c t).
 
 Definition owned_by (t : nat) (v : N) : Prop := exists e, v = owner_of t e.
 
@@ -236,4 +287,44 @@ Section Stable.
       + destruct (Gnew _ _ _ HG _ _ _ _ Hin Hnew). lia.
     - exact H11.
   Qed.
+  Lemma ldirty_stable : LDirty g t l -> LDirty g' t l.
+  Proof.
+    intros H. destruct H as [H0 H1 H2 H3 H6 H7 H8 H9 H10 H11].
+    pose proof (Gcap _ _ _ HG) as Ecap. pose proof (Gmono _ _ _ HG) as [Hch Hck].
+    constructor.
+    - exact H0.
+    - lia.
+    - intros i. pose proof (H2 i). pose proof (Ggen _ _ _ HG i). lia.
+    - intros i gm Hin. destruct (H3 i gm Hin). pose proof (Ggen _ _ _ HG i). rewrite Ecap. split; lia.
+    - intros n e Hc. destruct (Gcell _ _ _ HG n) as [E|[[_ E]|[_ E]]].
+      + apply (H6 n). congruence.
+      + exfalso. apply Hne. eapply owned_other; eauto. exists e. auto.
+      + rewrite Hc in E. exfalso. eapply owner_not_empty; eauto.
+    - unfold PcInvD in *. rewrite Ecap.
+      destruct (pc l) as [ |v|v cur n|v cur|k|c k|v n|v n|v n x|v n|v n|v n|v n|n|n|i|i gn|i gn|i gn| |p|n acc p|n o acc p|n acc p|n cur acc p|n cur acc p|n cur d acc p|n v acc p|n v acc p|n v acc p|acc|acc lk| |i|i cur|i cur|i cur];
+        try exact I; try exact H7;
+        repeat match goal with H : _ /\ _ |- _ => destruct H end;
+        try (split; [assumption|]); try (apply mine_kept; assumption); try (apply stale_stable; assumption).
+      + (* RecPDist0 *) intros E. apply mine_kept; auto.
+      + (* RecCasCell *)
+        match goal with Hc : cells g n = me t l |- _ => destruct (mine_kept n Hc) as (K1 & K2 & K3) end.
+        split; [exact K1|].
+        destruct (settled g n) eqn:Es.
+        * destruct (K2 eq_refl) as (_ & -> & _). assumption.
+        * destruct (K3 eq_refl) as (_ & _ & [->|[Ho ->]]); [assumption|].
+          match goal with Hd : gens g n = v \/ _ |- _ => destruct Hd as [E|[Hv E]] end.
+          -- right. rewrite E in Ho. split; [exact Ho|]. lia.
+          -- exfalso. rewrite E, odd_succ, Hv in Ho. discriminate.
+    - intros i Ho. eapply Gpub; eauto.
+    - intros i gm c e Hin Hc. destruct (in_dec tuple_dec (i, gm, c, e) (oplog g)) as [Hold|Hnew].
+      + eapply H9; eauto.
+      + destruct (Gnew _ _ _ HG _ _ _ _ Hin Hnew). lia.
+    - intros i gm c e Hin He. destruct (in_dec tuple_dec (i, gm, c, e) (oplog g)) as [Hold|Hnew].
+      + eapply H10; eauto.
+      + destruct (Gnew _ _ _ HG _ _ _ _ Hin Hnew). lia.
+    - exact H11.
+  Qed.
+
+  Lemma linvc_stable : LInvC g t l -> LInvC g' t l.
+  Proof. intros [H|H]; [left; apply linv_stable|right; apply ldirty_stable]; exact H. Qed.
 End Stable.
